@@ -428,6 +428,63 @@ pub fn large_cases(quick: bool) -> Vec<UniCase> {
     v
 }
 
+pub const BIG_SAT: u64 = 3000;
+
+/// Near-saturation systems: three jitter-free sporadic tasks with co-prime periods and total
+/// utilisation in [0.9, 1]: busy windows of hundreds of ticks that hold dozens of jobs of the
+/// analysed task, with the worst job far from the start of the window.
+pub fn saturated_cases(quick: bool) -> Vec<UniCase> {
+    let periods: Vec<u64> = if quick { vec![2, 3, 5, 7, 11, 19, 31] } else { vec![2, 3, 5, 7, 11, 13, 17, 19, 23, 31, 40] };
+    let cmax = if quick { 6 } else { 9 };
+    let mut v = vec![];
+    let np = periods.len();
+    for i in 0..np.pow(3) {
+        let idx = crate::props::uni::product_index(i as u64, np, 3);
+        let ts: Vec<u64> = idx.iter().map(|k| periods[*k]).collect();
+        for c0 in 1..=cmax.min(ts[0]) {
+            for c1 in 1..=cmax.min(ts[1]) {
+                for c2 in 1..=cmax.min(ts[2]) {
+                    let cs = [c0, c1, c2];
+                    // utilisation as an exact fraction over the product of the periods
+                    let den = ts[0] * ts[1] * ts[2];
+                    let num = c0 * ts[1] * ts[2] + c1 * ts[0] * ts[2] + c2 * ts[0] * ts[1];
+                    if 10 * num < 9 * den || num > den {
+                        continue;
+                    }
+                    let mk = |dl_eq_t: bool| -> Vec<TaskSpec> {
+                        (0..3)
+                            .map(|k| TaskSpec {
+                                arr: ArrSpec::Sporadic { t: ts[k], j: 0 },
+                                cost: CostSpec::Scalar(cs[k]),
+                                deadline: if dl_eq_t { ts[k] } else { 2 * ts[k] + 1 },
+                                last_seg: (cs[k] + 1) / 2,
+                                max_seg: (cs[k] + 1) / 2,
+                            })
+                            .collect()
+                    };
+                    for ana in ALL_ANA {
+                        if ana.is_fp() {
+                            for bb in [0u64, 2] {
+                                if bb > 0 && ana == Ana::FpP {
+                                    continue;
+                                }
+                                v.push(UniCase { ana, tasks: mk(true), tua: 2, blocking: bb, limit: BIG_SAT });
+                            }
+                        } else if ana == Ana::Fifo {
+                            v.push(UniCase { ana, tasks: mk(true), tua: 0, blocking: 0, limit: BIG_SAT });
+                        } else {
+                            for dl in [true, false] {
+                                v.push(UniCase { ana, tasks: mk(dl), tua: 2, blocking: 0, limit: BIG_SAT });
+                            }
+                        }
+                    }
+                }
+            }
+        }
+    }
+    v
+}
+
 pub fn run(ctx: &mut Ctx) -> (String, Value, Vec<String>) {
     crate::util::silence_panics();
     let cs = cases(ctx.quick());
@@ -474,6 +531,28 @@ pub fn run(ctx: &mut Ctx) -> (String, Value, Vec<String>) {
         }
         *per_ana.lock().unwrap().entry(c.ana.name().to_string()).or_insert(0) += k;
     });
+    // the near-saturation box
+    let sc = saturated_cases(ctx.quick());
+    let sn_ = AtomicU64::new(0);
+    let sok = AtomicU64::new(0);
+    let smax = AtomicU64::new(0);
+    sc.par_iter().for_each(|c| {
+        let (k, t, m) = compare_with(c, BIG_SAT);
+        n.fetch_add(k, Ordering::Relaxed);
+        sn_.fetch_add(k, Ordering::Relaxed);
+        nt.fetch_add(t, Ordering::Relaxed);
+        if let Some(r) = catch(|| run_uni(c)).ok().and_then(|o| o.ok()) {
+            sok.fetch_add(1, Ordering::Relaxed);
+            smax.fetch_max(r, Ordering::Relaxed);
+        }
+        if !m.is_empty() {
+            let mut b = bad.lock().unwrap();
+            if b.len() < 600 {
+                b.extend(m);
+            }
+        }
+        *per_ana.lock().unwrap().entry(c.ana.name().to_string()).or_insert(0) += k;
+    });
     let mut bad = bad.into_inner().unwrap();
     bad.sort_by(|a, b| a.1.len().cmp(&b.1.len()));
     for (k, w, c) in bad {
@@ -490,6 +569,8 @@ pub fn run(ctx: &mut Ctx) -> (String, Value, Vec<String>) {
         "cases_with_ok_result_at_limit_60": okc.load(Ordering::Relaxed),
         "large_parameter_box": {"rule": "four (thorough: five) sporadic tasks drawn with repetition, in every order, from (T,J,C) in {(10,0,2),(15,25,3),(20,0,5),(50,120,7),(7,0,1),(100,0,12),(30,30,1),(12,40,2)}; FP: tua = last and last-but-one task, blocking 0/4, segments ceil(C/2); EDF: deadlines T / 2C+5 / T+J, tua last and first; FIFO; limits {4000, R-1, R, R+1, R+3, 2R+1}",
                                 "cases": lc.len(), "comparisons": ln.load(Ordering::Relaxed), "cases_with_ok_result": lok.load(Ordering::Relaxed), "largest_ok_result": lmax.load(Ordering::Relaxed)},
+        "near_saturation_box": {"rule": "three jitter-free sporadic tasks, periods from {2,3,5,7,11,19,31} (thorough: {2,3,5,7,11,13,17,19,23,31,40}) in every order, costs 1..6 (9), total utilisation in [0.9, 1]; FP (tua last, blocking 0/2), EDF (D = T and D = 2T+1), FIFO; limits {3000, R-1, R, R+1, R+3, 2R+1}",
+                                "cases": sc.len(), "comparisons": sn_.load(Ordering::Relaxed), "cases_with_ok_result": sok.load(Ordering::Relaxed), "largest_ok_result": smax.load(Ordering::Relaxed)},
         "comparisons_per_analysis": *per_ana.lock().unwrap(),
         "samples": samples,
         "exhaustive": true,
